@@ -460,24 +460,23 @@ def BranchSwitchStatement : Prop :=
     ∃ w', switchTo (checkedOut a obsA) b obsB = ⟨w', none⟩ ∧ w'.head = b ∧
       (∀ p, wdEntry w'.wd p = b.get p) ∧ (∀ p, (treeOf w'.index).get p = b.get p)
 
-/-- `branch_switch`: check out `b` on a clean checkout of `a`, for all pairs of trees in which no
-path of one tree lies below a path of the other (or of itself): every combination of added, deleted,
-modified, re-moded and type-changed (file ↔ executable ↔ symbolic link) paths at any depth.  The
-switch succeeds, HEAD is `b`, the directory holds exactly `b` (kinds and contents), the index's tree
-is `b`, nothing is staged or unstaged, and status is clean whenever the link lookup is harmless.
-File → directory replacement is covered by the instances below; directory → file is a finding. -/
+/-- `branch_switch`: check out `b` on a clean checkout of `a`, for ALL pairs of well-formed trees of
+valid paths except those in which a directory of `a` is a file in `b` (`NoDirToFile`): every
+combination of added, deleted, modified, re-moded and type-changed (file ↔ executable ↔ symbolic
+link) paths at any depth, and files (or links) of `a` that become directories in `b`.  The switch
+succeeds, HEAD is `b`, the directory holds exactly `b` (kinds and contents), the index's tree is `b`,
+nothing is staged or unstaged, and status is clean whenever the link lookup is harmless. -/
 theorem branch_switch_partial (a b : FMap Entry) (obsA obsB : Obs)
     (hva : a.keys.all validPath = true) (hvb : b.keys.all validPath = true)
     (hoa : a.keys.all obsA.has = true) (hob : b.keys.all obsB.has = true)
-    (hfree : AncFree (a.keys ++ b.keys)) :
+    (hwfa : TreeWF a) (hwfb : TreeWF b) (hndf : NoDirToFile a b) :
     ∃ w', switchTo (checkedOut a obsA) b obsB = ⟨w', none⟩ ∧ w'.head = b ∧
       (∀ p, wdEntry w'.wd p = b.get p) ∧ (∀ p, (treeOf w'.index).get p = b.get p) ∧
       status w' = .ok ⟨[], [], [], [], untrackedOf w'.wd w'.index⟩ ∧
       (LinkLookupHarmless w' → status w' = .ok ⟨[], [], [], [], []⟩) := by
-  have hwfa : TreeWF a := treeWF_of_ancFree hfree
   have hsync := checkedOut_synced hoa hwfa
   have hcu := checkUncommitted_synced hsync b
-  have hpd : preCheckDirs (checkedOut a obsA).wd (changes a b) = .ok () := preCheckDirs_free hfree
+  have hpd : preCheckDirs (checkedOut a obsA).wd (changes a b) = .ok () := preCheckDirs_synced hsync b
   have hpm : preCheckModified (checkedOut a obsA).wd (changes a b) = .ok () := preCheckModified_synced hsync b
   -- facts about the files of the clean checkout
   have hfA0 : ∀ p, a.get p = none → (checkoutFiles a obsA).get p = none := by
@@ -486,35 +485,31 @@ theorem branch_switch_partial (a b : FMap Entry) (obsA obsB : Obs)
     intro p x h
     obtain ⟨o, ho⟩ := Option.isSome_iff_exists.mp ((List.all_eq_true.mp hoa) p (FMap.mem_keys_of_get h))
     exact ⟨⟨x.kind, x.cid, o.1, o.2⟩, by rw [checkoutFiles_get a obsA hoa, h, ho]; rfl, rfl⟩
-  have hkeys0 : ∀ k ∈ (checkoutFiles a obsA).keys, k ∈ a.keys ++ b.keys := by
-    intro k hk; rw [checkoutFiles_keys a obsA hoa] at hk; exact List.mem_append_left _ hk
-  obtain ⟨s', happ, hkeys', hin, hout⟩ := applyChanges_paths (a := a) (b := b) (fA := checkoutFiles a obsA)
-    (obs := obsB) hfree
+  have hTout : ∀ p, p ∉ changedPathOrder a b →
+      (checkedOut a obsA).wd.get p = targetWd a b (checkoutFiles a obsA) obsB p ∧
+      (checkedOut a obsA).index.get p = (targetWd a b (checkoutFiles a obsA) obsB p).map WFile.ientry := by
+    intro p hp
+    have hpK : p ∉ a.keys ++ b.keys := fun e => hp ((mem_changedPathOrder a b p).mpr e)
+    have han : a.get p = none := by
+      cases h : a.get p with
+      | none => rfl
+      | some x => exact absurd (List.mem_append_left _ (FMap.mem_keys_of_get h)) hpK
+    have hbn : b.get p = none := by
+      cases h : b.get p with
+      | none => rfl
+      | some x => exact absurd (List.mem_append_right _ (FMap.mem_keys_of_get h)) hpK
+    have ht : targetWd a b (checkoutFiles a obsA) obsB p = none := by simp [targetWd, hbn]
+    rw [ht]
+    exact ⟨hfA0 p han, by rw [checkedOut_index_get, hfA0 p han]⟩
+  obtain ⟨s', happ, hall⟩ := applyChanges_sorted (a := a) (b := b) (fA := checkoutFiles a obsA)
+    (obs := obsB) hwfb hndf
     (fun p x h => (List.all_eq_true.mp hva) p (FMap.mem_keys_of_get h))
     (fun p y h => (List.all_eq_true.mp hvb) p (FMap.mem_keys_of_get h))
     (fun p y h => Option.isSome_iff_exists.mp ((List.all_eq_true.mp hob) p (FMap.mem_keys_of_get h)))
-    hfA0 hfA1 (changedPathOrder a b) (nodup_changedPathOrder a b)
+    hfA0 hfA1 (changedPathOrder a b) (sorted_changedPathOrder a b)
     (fun p hp => (mem_changedPathOrder a b p).mp hp)
-    ⟨(checkedOut a obsA).wd, (checkedOut a obsA).index⟩ hkeys0
-    (fun p _ => ⟨rfl, checkedOut_index_get a obsA p⟩)
-  -- the state at every path is the target state
-  have hall : ∀ p, s'.wd.get p = targetWd a b (checkoutFiles a obsA) obsB p ∧
-      s'.index.get p = (targetWd a b (checkoutFiles a obsA) obsB p).map WFile.ientry := by
-    intro p
-    by_cases hp : p ∈ changedPathOrder a b
-    · exact hin p hp
-    · have hpK : p ∉ a.keys ++ b.keys := fun e => hp ((mem_changedPathOrder a b p).mpr e)
-      have han : a.get p = none := by
-        cases h : a.get p with
-        | none => rfl
-        | some x => exact absurd (List.mem_append_left _ (FMap.mem_keys_of_get h)) hpK
-      have hbn : b.get p = none := by
-        cases h : b.get p with
-        | none => rfl
-        | some x => exact absurd (List.mem_append_right _ (FMap.mem_keys_of_get h)) hpK
-      have ht : targetWd a b (checkoutFiles a obsA) obsB p = none := by simp [targetWd, hbn]
-      rw [(hout p hp).1, (hout p hp).2, ht]
-      exact ⟨hfA0 p han, by rw [checkedOut_index_get, hfA0 p han]⟩
+    ⟨(checkedOut a obsA).wd, (checkedOut a obsA).index⟩
+    (fun p _ => ⟨rfl, checkedOut_index_get a obsA p⟩) hTout
   have hsync' : Synced ⟨b, s'.index, s'.wd⟩ := by
     refine ⟨fun p => by rw [(hall p).2, (hall p).1], ?_, ?_⟩
     · intro p
@@ -530,7 +525,20 @@ theorem branch_switch_partial (a b : FMap Entry) (obsA obsB : Obs)
         · obtain ⟨o, ho⟩ := Option.isSome_iff_exists.mp ((List.all_eq_true.mp hob) p (FMap.mem_keys_of_get hb))
           simp [hay, ho, fileOf, WFile.entry]
     · intro p hp
-      exact (free_view hkeys' hfree (hkeys' p hp)).1
+      show hasFileAncestor s'.wd p = false
+      obtain ⟨f, hf⟩ := FMap.get_of_mem_keys hp
+      have hbp : ∃ y, b.get p = some y := by
+        have := (hall p).1
+        rw [hf] at this
+        unfold targetWd at this
+        cases hb : b.get p with
+        | none => rw [hb] at this; cases this
+        | some y => exact ⟨y, rfl⟩
+      obtain ⟨y, hy⟩ := hbp
+      rw [hasFileAncestor_false_iff]
+      intro k hk
+      rw [(hall k).1]
+      simp [targetWd, hwfb.apply hy hk]
   refine ⟨⟨b, s'.index, s'.wd⟩, ?_, rfl, hsync'.wdEntry, hsync'.treeOf, hsync'.status, ?_⟩
   · unfold switchTo
     have hh : (checkedOut a obsA).head = a := rfl
@@ -553,36 +561,37 @@ theorem branch_switch_partial (a b : FMap Entry) (obsA obsB : Obs)
       cases hwf : walkedAsFile f <;> cases hal : s'.index.has (aliasOf p f) <;> simp_all
     simp only [this]
 
-/-- non-vacuity: one switch that adds, deletes, rewrites, re-modes and changes the type of paths -/
+/-- non-vacuity: one switch that adds, deletes, rewrites, re-modes, changes the type of paths and turns
+the file `x` into a directory -/
 example : ∃ w', switchTo
-      (checkedOut [(pa, ⟨.regular, 1⟩), (pb, ⟨.regular, 2⟩), (pc, ⟨.regular, 3⟩), (pde, ⟨.regular, 4⟩), (pu, ⟨.symlink, 5⟩)]
+      (checkedOut [(pa, ⟨.regular, 1⟩), (pb, ⟨.regular, 2⟩), (pc, ⟨.regular, 3⟩), (pde, ⟨.regular, 4⟩), (pu, ⟨.symlink, 5⟩), ([120], ⟨.regular, 7⟩)]
         [(pa, (⟨5, 5, 1⟩, reg)), (pb, (⟨5, 5, 1⟩, reg)), (pc, (⟨5, 5, 1⟩, reg)), (pde, (⟨5, 5, 1⟩, reg)),
-         (pu, (⟨5, 5, 1⟩, ⟨.missing, none⟩))])
-      [(pa, ⟨.regular, 1⟩), (pb, ⟨.executable, 2⟩), (pc, ⟨.symlink, 3⟩), (pn, ⟨.regular, 6⟩), (pu, ⟨.regular, 5⟩)]
+         (pu, (⟨5, 5, 1⟩, ⟨.missing, none⟩)), ([120], (⟨5, 5, 1⟩, reg))])
+      [(pa, ⟨.regular, 1⟩), (pb, ⟨.executable, 2⟩), (pc, ⟨.symlink, 3⟩), (pn, ⟨.regular, 6⟩), (pu, ⟨.regular, 5⟩), ([120, 47, 121], ⟨.regular, 8⟩)]
       [(pa, (⟨9, 9, 1⟩, reg)), (pb, (⟨9, 9, 1⟩, reg)), (pc, (⟨9, 9, 1⟩, ⟨.missing, none⟩)), (pn, (⟨9, 9, 1⟩, reg)),
-       (pu, (⟨9, 9, 1⟩, reg))] = ⟨w', none⟩ ∧
-      w'.head = [(pa, ⟨.regular, 1⟩), (pb, ⟨.executable, 2⟩), (pc, ⟨.symlink, 3⟩), (pn, ⟨.regular, 6⟩), (pu, ⟨.regular, 5⟩)] ∧
+       (pu, (⟨9, 9, 1⟩, reg)), ([120, 47, 121], (⟨9, 9, 1⟩, reg))] = ⟨w', none⟩ ∧
+      w'.head = [(pa, ⟨.regular, 1⟩), (pb, ⟨.executable, 2⟩), (pc, ⟨.symlink, 3⟩), (pn, ⟨.regular, 6⟩), (pu, ⟨.regular, 5⟩), ([120, 47, 121], ⟨.regular, 8⟩)] ∧
       status w' = .ok ⟨[], [], [], [], []⟩ := by
   obtain ⟨w', h1, h2, _, _, _, h6⟩ := branch_switch_partial
-    [(pa, ⟨.regular, 1⟩), (pb, ⟨.regular, 2⟩), (pc, ⟨.regular, 3⟩), (pde, ⟨.regular, 4⟩), (pu, ⟨.symlink, 5⟩)]
-    [(pa, ⟨.regular, 1⟩), (pb, ⟨.executable, 2⟩), (pc, ⟨.symlink, 3⟩), (pn, ⟨.regular, 6⟩), (pu, ⟨.regular, 5⟩)]
+    [(pa, ⟨.regular, 1⟩), (pb, ⟨.regular, 2⟩), (pc, ⟨.regular, 3⟩), (pde, ⟨.regular, 4⟩), (pu, ⟨.symlink, 5⟩), ([120], ⟨.regular, 7⟩)]
+    [(pa, ⟨.regular, 1⟩), (pb, ⟨.executable, 2⟩), (pc, ⟨.symlink, 3⟩), (pn, ⟨.regular, 6⟩), (pu, ⟨.regular, 5⟩), ([120, 47, 121], ⟨.regular, 8⟩)]
     [(pa, (⟨5, 5, 1⟩, reg)), (pb, (⟨5, 5, 1⟩, reg)), (pc, (⟨5, 5, 1⟩, reg)), (pde, (⟨5, 5, 1⟩, reg)),
-     (pu, (⟨5, 5, 1⟩, ⟨.missing, none⟩))]
+     (pu, (⟨5, 5, 1⟩, ⟨.missing, none⟩)), ([120], (⟨5, 5, 1⟩, reg))]
     [(pa, (⟨9, 9, 1⟩, reg)), (pb, (⟨9, 9, 1⟩, reg)), (pc, (⟨9, 9, 1⟩, ⟨.missing, none⟩)), (pn, (⟨9, 9, 1⟩, reg)),
-     (pu, (⟨9, 9, 1⟩, reg))]
-    (by decide) (by decide) (by decide) (by decide) (by decide)
+     (pu, (⟨9, 9, 1⟩, reg)), ([120, 47, 121], (⟨9, 9, 1⟩, reg))]
+    (by decide) (by decide) (by decide) (by decide) (by decide) (by decide) (by decide)
   refine ⟨w', h1, h2, h6 ?_⟩
   have hw : w' = (switchTo
-      (checkedOut [(pa, ⟨.regular, 1⟩), (pb, ⟨.regular, 2⟩), (pc, ⟨.regular, 3⟩), (pde, ⟨.regular, 4⟩), (pu, ⟨.symlink, 5⟩)]
+      (checkedOut [(pa, ⟨.regular, 1⟩), (pb, ⟨.regular, 2⟩), (pc, ⟨.regular, 3⟩), (pde, ⟨.regular, 4⟩), (pu, ⟨.symlink, 5⟩), ([120], ⟨.regular, 7⟩)]
         [(pa, (⟨5, 5, 1⟩, reg)), (pb, (⟨5, 5, 1⟩, reg)), (pc, (⟨5, 5, 1⟩, reg)), (pde, (⟨5, 5, 1⟩, reg)),
-         (pu, (⟨5, 5, 1⟩, ⟨.missing, none⟩))])
-      [(pa, ⟨.regular, 1⟩), (pb, ⟨.executable, 2⟩), (pc, ⟨.symlink, 3⟩), (pn, ⟨.regular, 6⟩), (pu, ⟨.regular, 5⟩)]
+         (pu, (⟨5, 5, 1⟩, ⟨.missing, none⟩)), ([120], (⟨5, 5, 1⟩, reg))])
+      [(pa, ⟨.regular, 1⟩), (pb, ⟨.executable, 2⟩), (pc, ⟨.symlink, 3⟩), (pn, ⟨.regular, 6⟩), (pu, ⟨.regular, 5⟩), ([120, 47, 121], ⟨.regular, 8⟩)]
       [(pa, (⟨9, 9, 1⟩, reg)), (pb, (⟨9, 9, 1⟩, reg)), (pc, (⟨9, 9, 1⟩, ⟨.missing, none⟩)), (pn, (⟨9, 9, 1⟩, reg)),
-       (pu, (⟨9, 9, 1⟩, reg))]).world := by rw [h1]
+       (pu, (⟨9, 9, 1⟩, reg)), ([120, 47, 121], (⟨9, 9, 1⟩, reg))]).world := by rw [h1]
   rw [hw]
   decide
 
-/-- File → directory: `x` (file, executable, or link) in `a`, `x/y` in `b` — the switch works. -/
+/-- File → directory, concretely: `x` (file, executable, or link) in `a`, `x/y` and `x/z/w` in `b`. -/
 theorem branch_switch_file_to_dir_instances :
     ∀ k ∈ [Kind.regular, Kind.executable, Kind.symlink],
       let r := switchTo (checkedOut [([120], ⟨k, 1⟩), (pa, ⟨.regular, 2⟩)]
